@@ -886,6 +886,14 @@ class VmapBatchHandler:
         vector_args = tuple(vector_args[1:])
         batch_axes = tuple(batch_axes[1:])
 
+        # Bring every batched argument's batch axis to the front, so that the
+        # sampler's parameter broadcasting pairs lanes with lanes
+        vector_args = tuple(
+            jnp.moveaxis(arg, axis, 0) if axis is not None and axis != 0 else arg
+            for arg, axis in zip(vector_args, batch_axes)
+        )
+        batch_axes = tuple(0 if axis is not None else None for axis in batch_axes)
+
         # Compute new sample shape
         n = static_dim_length(batch_axes, vector_args)
         outer_batch_dim = self._compute_outer_batch_dim(n, axis_size)
@@ -895,8 +903,14 @@ class VmapBatchHandler:
         new_config = self.config.with_sample_shape(new_sample_shape)
         result = create_sample_primitive(new_config)(*vector_args)
 
-        # Return with appropriate output axes
-        out_axes = (0 if n or axis_size else None,)
+        # Return with appropriate output axes: batched parameters put the lane
+        # axis after the site's own sample_shape, an added sample dimension first
+        if n:
+            out_axes = (len(self.config.sample_shape),)
+        elif axis_size:
+            out_axes = (0,)
+        else:
+            out_axes = (None,)
         return (result,), out_axes
 
     def _compute_outer_batch_dim(self, n, axis_size):
